@@ -129,8 +129,9 @@ Example C14_multi_level_example :
 Proof. split; [|split]; [vm_compute; reflexivity | vm_compute; reflexivity |].
   intros k [<-|[<-|[<-|[]]]]; reflexivity. Qed.
 
-(* Tie B (pins): crosstab reads, statement by statement, as it did when the model was written against it *)
+(* Tie B (pins): crosstab and the reduction front end (whose `if margins:` block calls add_row_margin column by column for temporal
+   sums) read, statement by statement, as they did when the model was written against them *)
 From GL Require Import Gen.SourcesGen Model.Sources Proofs.PinC14.
-Theorem C14_modelled_functions_are_the_source's : gen_src_crosstab = src_crosstab.
-Proof. exact pin_crosstab. Qed.
+Theorem C14_modelled_functions_are_the_source's : gen_src_crosstab = src_crosstab /\ gen_src_apply_gb_reduction = src_apply_gb_reduction.
+Proof. exact (conj pin_crosstab pin_apply_gb_reduction). Qed.
 Print Assumptions C14_modelled_functions_are_the_source's.
